@@ -219,8 +219,19 @@ def encoder_rule(repo: Repo, rep: Report, rid: str) -> None:
 # R4 static-array size guard
 
 def array_guard_rule(repo: Repo, rep: Report, rid: str) -> None:
-    rep.rule(rid, "BaseArray._write refuses a static array whose element count differs: the ArraySizeError guard dominates _write_array")
+    rep.rule(rid, "BaseArray._write refuses a static array whose element count differs: folded over (declared count, value length) cases incl. two "
+                  "dimensions - a value of another length raises, the right length reaches _write_array; where the writer cannot be folded, the "
+                  "ArraySizeError guard must dominate _write_array")
     fi = repo.func("types/base.py", "BaseArray._write")
+    from ..folds import fold_base_array
+
+    fold = fold_base_array(repo)
+    if fold is not None:
+        bad = [b for b in fold["write_bad"] if b[2] == "raise"]
+        rep.check(not bad, rid, f"{fi.key}:size-guard", "every static array value of another length is refused (folded)",
+                  ("a static array with the wrong number of elements can reach _write_array without raising ArraySizeError: "
+                   f"{bad[0][0]}: {bad[0][1]}") if bad else "", fi.loc())
+        return
     g = CFG(fi.node)
     emit = [n for n in g.nodes if n.kind == "stmt" and any(isinstance(c, ast.Call) and call_name(c) == "_write_array" for c in ast.walk(n.ast))]
     if not emit:
@@ -358,6 +369,9 @@ def run(repo: Repo, rep: Report, tier: str) -> None:
     from .c06 import unit_switch_rule
 
     unit_switch_rule(repo, rep, "C01.R21")
+    from .c07 import generic_write_array_rule
+
+    generic_write_array_rule(repo, rep, "C01.R24")
     layout_fold_rule(repo, rep, "C01.R22", 3 if tier == "thorough" else 2)
     from .c05 import leb128_rule as _leb
 
